@@ -84,6 +84,34 @@ def pC03 (ds : List Doc) : String :=
           else go (i + 1) rest
     go 0 ds
 
+/-- C09 evaluated on the model, mirroring the harness' `p_c09` -/
+def pC09 (k : Nat) (ds : List Doc) : String :=
+  match fromSourcesDoc ds with
+  | .error _ => "skip"
+  | .ok base =>
+    let under (s : String) : String := String.ofList (s.toList.map fun c => if c == ' ' then '_' else c)
+    let rec reps (hh : List Doc) (d : Doc) (prev : Option Shape) : Nat → Nat → Except String Shape
+      | 0, _ => match prev with | some p => .ok p | none => .error "no repetition"
+      | n + 1, rep =>
+        let hh' := hh ++ [d]
+        match fromSourcesDoc hh' with
+        | .error _ => .error "violated: from_sources failed on a repetition"
+        | .ok s =>
+          match prev with
+          | some p =>
+            if Shape.cmp p s != .eq then
+              .error ("violated: shape still changing at repetition " ++ toString (rep + 1) ++ ": "
+                ++ sexp p ++ " -> " ++ sexp s)
+            else reps hh' d (some s) n (rep + 1)
+          | none => reps hh' d (some s) n (rep + 1)
+    let rec go : List Doc → String → String
+      | [], acc => acc
+      | d :: rest, acc =>
+        match reps ds d none k 0 with
+        | .error e => e
+        | .ok s => go rest (acc ++ " " ++ under (sexp s))
+    go ds ("ok " ++ under (sexp base))
+
 def step (line : String) : String :=
   match line.splitOn "\t" with
   | ["subset", a, b] => withShape a fun a => withShape b fun b => showBool (isSubset a b)
@@ -162,6 +190,10 @@ def step (line : String) : String :=
       | some d, some e => pC08 d e
       | _, _ => "not-json"
   | ["p_c17", _] => "n/a"
+  | "p_c09" :: k :: hs =>
+      match docsOfHex hs, k.toNat? with
+      | some ds, some k => pC09 k ds
+      | _, _ => "not-json"
   | ["p_keeps", s0, a, c] => withShape s0 fun s0 => withShape a fun a => withShape c fun c =>
       let m := merger a c
       if !isSubset c m then "violated new: " ++ sexp c ++ " not in " ++ sexp m
